@@ -29,6 +29,11 @@ def load_findings(prop: str) -> List[dict]:
 
 def _match(sig: dict, pattern: dict) -> bool:
     for k, v in pattern.items():
+        if k.endswith("__contains"):  # the signature's list-valued key must contain the given element
+            lst = sig.get(k[: -len("__contains")])
+            if not isinstance(lst, list) or v not in lst:
+                return False
+            continue
         if k not in sig:
             return False
         sv = sig[k]
